@@ -238,11 +238,13 @@ Section HashRoundtrip.
     - destruct (input_eq_dec (l_input l0) (o_in o)); intros E; inversion E.
     - destruct (run_input f now s (o_in o)) as [s1 p|s1 e1|] eqn:R; [| |discriminate].
       + assert (G : payload_tx_id p = Some t -> t = s_next_tx s).
-        { clear - R. destruct (o_in o) as [ps ts ref md amd force | id force at_eff rmeta | [a|id] md | [a|id] k]; simpl in R.
-          - destruct ps as [|q ps']; [discriminate|].
+        { clear - R. revert s1 p R. generalize (o_in o). intros i. script_split i.
+          { intros s1 p R. simpl in R. unfold create_tx in R. destruct ps as [|q ps']; [discriminate|].
             destruct (feasible force (s_vols s) (q :: ps')); simpl in R; [|discriminate].
             destruct (commit_transaction f now s (q :: ps') md ts ref) as [s0 [t0|]] eqn:E; [|discriminate].
-            inversion R; subst. simpl. intros X; inversion X; subst. apply commit_some in E. tauto.
+            inversion R; subst. simpl. intros X; inversion X; subst. apply commit_some in E. tauto. }
+          destruct i as [ps ts ref md amd force | id force at_eff rmeta | [a|id] md | [a|id] k | ps ts ref md amd force smd samd];
+            [apply Hc | | | | | | script_bullet Hc]; intros s1 p R; simpl in R.
           - destruct (find_tx (s_txs s) id) as [t0|]; [|discriminate]. destruct (t_rev t0); [discriminate|].
             match type of R with context [match ?chk with RCOk => _ | RCInsufficient => _ | RCPanic => _ end] => destruct chk end; try discriminate.
             match type of R with context [commit_transaction ?a ?b ?c0 ?d ?e ?g ?h] => destruct (commit_transaction a b c0 d e g h) as [s2 [r|]] eqn:E end; [|discriminate].
